@@ -658,6 +658,52 @@ fn dup_values() -> Vec<Value> {
     ]
 }
 
+/// Objects wide enough for several growths of the key index, with repeats of early keys after
+/// each growth (the collapse of duplicates has to find entries inserted before the table grew).
+fn wide_values(r: &mut Rng, dups: bool) -> Vec<Value> {
+    let mut out = vec![];
+    for n in [4usize, 5, 8, 9, 15, 16, 29, 30, 58, 70] {
+        let mut es: Vec<Entry> = vec![];
+        for i in 0..n {
+            let k = match i % 5 {
+                3 => format!("k{}\u{e9}", i),
+                _ => format!("k{}", i),
+            };
+            es.push(Entry::new(k.as_str().into(), num(&i.to_string())));
+            if dups && ((i + 1).is_power_of_two() || r.chance(1, 6)) {
+                let e = r.below(i + 1);
+                let k = es.iter().filter(|x| x.key.as_str().starts_with('k')).nth(e).map(|x| x.key.clone());
+                if let Some(k) = k {
+                    es.push(Entry::new(k, Value::Null));
+                }
+            }
+        }
+        if dups {
+            // and one repeat of every third key at the end
+            for i in (0..n).step_by(3) {
+                let k = es[i].key.clone();
+                es.push(Entry::new(k, Value::Boolean(true)));
+            }
+        }
+        let o = Value::Object(Object::from_vec(es));
+        out.push(Value::Array(vec![o.clone(), Value::Null]));
+        out.push(o);
+    }
+    out
+}
+
+/// The serde_json value with the same shape (numbers through their text; wide_values only has small integers).
+fn j_of_value(v: &Value) -> J {
+    match v {
+        Value::Null => J::Null,
+        Value::Boolean(b) => J::Bool(*b),
+        Value::Number(n) => J::Number(n.as_str().parse::<u64>().unwrap_or(0).into()),
+        Value::String(s) => J::String(s.as_str().to_string()),
+        Value::Array(a) => J::Array(a.iter().map(j_of_value).collect()),
+        Value::Object(o) => J::Object(o.iter().map(|e| (e.key.as_str().to_string(), j_of_value(&e.value))).collect()),
+    }
+}
+
 fn order_values() -> Vec<Value> {
     // key order: UTF-8 byte order = code point order (U+E000 < U+10000), not UTF-16 order
     let n = |x: &str| num(x);
@@ -682,7 +728,8 @@ pub fn generate_c17(args: &Args, out: &mut Out) {
             out.case(|| case_v(op, &w));
         }
     }
-    for v in token_values().into_iter().chain(dup_values()).chain(order_values()) {
+    let wide: Vec<Value> = wide_values(&mut r, true).into_iter().chain(wide_values(&mut r, false)).collect();
+    for v in token_values().into_iter().chain(dup_values()).chain(order_values()).chain(wide) {
         for op in ["ser", "de", "txt"] {
             out.case(|| case_v(op, &v));
         }
@@ -754,6 +801,30 @@ pub fn generate_c18(args: &Args, out: &mut Out) {
         m.insert("\u{10000}".into(), J::Array(vec![j.clone(), J::Null]));
         m.insert("\u{e000}".into(), J::Bool(true));
         out.case(|| case_j(&J::Object(m)));
+    }
+    // d * 10^k (every power of ten of the double range, one and two significant digits) and neighbours:
+    // the doubles serde_json spells with an exponent and/or without a fraction
+    for k10 in -324i32..=308 {
+        for d in ["1", "2", "5", "9", "1.5", "2.5", "9.9"] {
+            if !(-25..=25).contains(&k10) && d != "1" && d != "9" && d != "2.5" {
+                continue;
+            }
+            let x: f64 = format!("{d}e{k10}").parse().unwrap();
+            for y in [x, -x, f64::from_bits(x.to_bits().wrapping_add(1)), f64::from_bits(x.to_bits().wrapping_sub(1))] {
+                if y.is_finite() && y != 0.0 {
+                    out.case(|| case_j(&J::Number(serde_json::Number::from_f64(y).unwrap())));
+                }
+            }
+        }
+    }
+    for wide in wide_values(&mut r, false) {
+        if let Ok(j) = serde_json::to_value(j_of_value(&wide)) {
+            out.case(|| case_j(&j));
+        }
+        out.case(|| case_v("is", &wide));
+    }
+    for wide in wide_values(&mut r, true) {
+        out.case(|| case_v("is", &wide));
     }
     for u in [0u64, 1, 9, 10, u64::MAX, u64::MAX - 1, i64::MAX as u64, i64::MAX as u64 + 1, 1 << 53, (1 << 53) + 1] {
         out.case(|| case_j(&J::Number(u.into())));
